@@ -340,10 +340,27 @@ Proof. intros c s ls. revert s. induction ls as [|l r IH]; intros s; cbn [fold_l
 Lemma gen_sop_run_eq : forall (c : sop_cfg) (s : sop_state) (ins : list sop_in),
   fold_left (gen_sop_step c) ins s = fold_left (sop_step c) ins s.
 Proof. intros c s ins. revert s. induction ins as [|l r IH]; intros s; cbn [fold_left]; [reflexivity|]. rewrite gen_sop_step_eq. apply IH. Qed.
+(* the property theorems of Props/C20.v, restated for the functions generated from the source text *)
+Theorem gen_sop_stops_exactly_when : forall (c : sop_cfg (F:=F)) (ins : list sop_in),
+  sop_cont (fold_left (gen_sop_step c) ins sop_init) = forallb (fun k => negb (sop_cause c (firstn k ins))) (seq 1 (length ins)).
+Proof. intros c ins. rewrite gen_sop_run_eq. exact (sop_cont_iff c ins). Qed.
+Theorem gen_rtb_stops_exactly_when : forall (c : rtb_cfg (F:=F)) (ls : list (list F)),
+  rtb_cont (fold_left (gen_rtb_step c) ls rtb_init) = forallb (fun k => negb (rtb_cause c (firstn k ls))) (seq 1 (length ls)).
+Proof. intros c ls. rewrite gen_rtb_run_eq. exact (rtb_cont_iff c ls). Qed.
+Theorem gen_rtb_stays_false : forall (c : rtb_cfg (F:=F)) ls more,
+  rtb_cont (fold_left (gen_rtb_step c) ls rtb_init) = false -> rtb_cont (fold_left (gen_rtb_step c) (ls ++ more) rtb_init) = false.
+Proof. intros c ls more. rewrite !gen_rtb_run_eq. exact (rtb_stays_false c ls more). Qed.
+Theorem gen_reset_restores_initial_state : forall (s : rtb_state (F:=F)), gen_rtb_reset s = rtb_init.
+Proof. intros s. rewrite gen_rtb_reset_eq. exact (rtb_reset_is_init s). Qed.
 End Gen.
+Print Assumptions gen_sop_stops_exactly_when. Print Assumptions gen_rtb_stops_exactly_when.
+Print Assumptions gen_rtb_stays_false. Print Assumptions gen_reset_restores_initial_state.
 Print Assumptions gen_rtb_step_eq. Print Assumptions gen_rtb_reset_eq. Print Assumptions gen_sop_step_eq.
 Print Assumptions gen_mpc_budget_eq. Print Assumptions gen_rtb_run_eq. Print Assumptions gen_sop_run_eq.
 '''
+
+
+N_LEMMAS = 10
 
 
 def translate(repo):
@@ -356,7 +373,7 @@ def translate(repo):
     sop = _find_class(sct, 'StopOnPlateau')
     out = ('(* GENERATED by harness/translate_controller.py from %s and %s - do not edit *)\n' % (sp, sc) +
            'From Coq Require Import ZArith List Bool Arith.\nImport ListNotations.\n'
-           'From PV Require Import Base.Num Model.Controller.\n'
+           'From PV Require Import Base.Num Model.Controller Proofs.Controller Proofs.Controller2.\n'
            'Section Gen.\nContext {F : Type} {NF : Num F}.\nLocal Open Scope num_scope.\n')
     k, m = _resolve_method(st, rtb, 'step')
     a = Sym('rtb', st, k)
